@@ -101,9 +101,15 @@ class V:
         self.res, self.known, self.n = res, known, {}
 
     def violate(self, layer, **kw):
-        self.n[layer] = self.n.get(layer, 0) + 1
-        if self.n[layer] <= 3:
-            self.res.violate(layer=layer, **kw)
+        self.n.setdefault(layer, []).append(kw)
+
+    def flush(self):
+        """report at most 3 violations per layer, those with a failing input (panic / hang / oracle) first"""
+        for layer, l in self.n.items():
+            l.sort(key=lambda kw: 0 if kw.get("failing_input", True) else 1)
+            for kw in l[:3]:
+                self.res.violate(layer=layer, **kw)
+            self.res.extra.setdefault("violations_per_layer", {})[layer] = len(l)
 
     def hit(self, cls, text):
         if cls in self.known:
@@ -187,39 +193,39 @@ def layer1a(ctx, res, vv, lines, tag):
             where.append((ix, k, mm))
     pb = C.write_cases("c05_back_%s.txt" % tag, backs)
     mb = C.run_model(model, pb) if backs else []
-    for (ix, k, mm), m in zip(where, mb):
+    for (ix, k, mm), mboth in zip(where, mb):
         s = lines[ix]
+        m, mfix = mboth.split("\t")       # unrepaired planner / planner with notes/C05-fix-1.patch
         got = "plan=%s fw=%s" % (mm.group(4), mm.group(5))
         mfw = m.rsplit(" fw=", 1)[1]
         ifw = mm.group(5)
         fine = lambda f: f in ("Skip", "Calc", "Run[]", "-")
-        if m.startswith("plan=OUT-OF-FUEL"):
+        if "OUT-OF-FUEL" in mboth:
             vv.violate("L1a", kind="oracle", input=s, model=m, impl=got, failing_input=True,
                        note="the model's from_tokens loop ran out of fuel (theorem C05_from_tokens_total says it cannot)")
             continue
         if not fine(mfw):
-            # inside the own known class: the model predicts a first-word panic
             res.nontrivial("empty:" + mm.group(3))
-            if got == m:
+        if got == m:
+            if not fine(mfw):
+                # inside the own known class: the unrepaired model predicts a first-word panic and the implementation has it
                 stats["empty-command"] = stats.get("empty-command", 0) + 1
                 if not vv.hit("empty-command", "e.g. %r: %s, as the model predicts" % (s, ifw)):
                     vv.violate("L1a", kind="oracle", input=s, expected="no panic in the first-word look-ups", observed=got,
                                failing_input=True, note="a planned command without words is indexed at [0] "
                                                         "(class empty-command is not listed in known_findings.txt)")
-            elif fine(ifw):
-                stats["empty-command-repaired"] = stats.get("empty-command-repaired", 0) + 1
-            else:
-                vv.violate("L1a", kind="oracle", input=s, model=m, impl=got, failing_input=True,
-                           note="inside class empty-command the implementation neither does what the model predicts nor avoids the panic")
+            elif mm.group(3) != mm.group(1) or "redirs=[(" in m or "E(" in m:
+                res.nontrivial("plan:" + mm.group(3)[:60])
             continue
-        if got != m:
-            bad = not fine(ifw)
-            vv.violate("L1a", kind="oracle" if bad else "correspondence", function="from_line glue / first-word look-ups",
-                       input=s, model=m, impl=got, failing_input=bad,
-                       note="planner or first-word look-ups differ from Model/Redirect.v + Model/FirstWord.v")
+        if got == mfix:
+            # the implementation behaves as the repaired planner (theorem C05_fixed_full): accepted
+            stats["as-repaired-planner"] = stats.get("as-repaired-planner", 0) + 1
             continue
-        if mm.group(3) != mm.group(1) or "redirs=[(" in m or "E(" in m:
-            res.nontrivial("plan:" + mm.group(3)[:60])
+        bad = not fine(ifw)
+        vv.violate("L1a", kind="oracle" if bad else "correspondence", function="from_line glue / first-word look-ups",
+                   input=s, model=m, model_repaired=mfix, impl=got, failing_input=bad,
+                   note="planner or first-word look-ups differ from Model/Redirect.v + Model/FirstWord.v (both the unrepaired "
+                        "planner and the one with the empty-command check)")
     res.count("L1a_pure_stages_" + tag, len(lines))
     for k, v in stats.items():
         res.extra.setdefault("l1a_outcomes", {})[tag + ":" + k] = v
@@ -555,6 +561,7 @@ def run(ctx, res):
         res.extra["layer_seconds"] = tm
         res.exhaustive = True
     finally:
+        vv.flush()
         for k, v in env0.items():
             if v is not None:
                 os.environ[k] = v
